@@ -206,6 +206,17 @@ __CPROVER_ensures (vin_fmode == SFM_WRITE ==> (__CPROVER_return_value == 0 && ps
 __CPROVER_ensures ((vin_fmode != SFM_READ && vin_fmode != SFM_WRITE) ==> (__CPROVER_return_value != 0 && psf->file.filedes == vin_filedes)) /*@C09.pipes_cannot_be_opened_read_write*/
 ;
 
+int vin_save, vin_on ;
+void psf_use_rsrc (SF_PRIVATE *psf, int on_off)
+__CPROVER_requires (__CPROVER_is_fresh (psf, sizeof (SF_PRIVATE)) && psf->file.filedes == vin_filedes && psf->rsrc.filedes == vin_rsrc && psf->file.savedes == vin_save && on_off == vin_on)
+__CPROVER_assigns (psf->file.filedes, psf->file.savedes)
+__CPROVER_ensures (psf->rsrc.filedes == vin_rsrc) /*@C16.switching_forks_never_loses_a_descriptor*/
+__CPROVER_ensures ((vin_on && vin_filedes != vin_rsrc) ==> (psf->file.filedes == vin_rsrc && psf->file.savedes == vin_filedes)) /*@C16.switching_forks_never_loses_a_descriptor*/ /*@C14.resource_fork_selected*/
+__CPROVER_ensures ((vin_on && vin_filedes == vin_rsrc) ==> (psf->file.filedes == vin_filedes && psf->file.savedes == vin_save))
+__CPROVER_ensures ((!vin_on && vin_filedes == vin_rsrc) ==> psf->file.filedes == vin_save) /*@C14.data_fork_restored*/ /*@C16.switching_forks_never_loses_a_descriptor*/
+__CPROVER_ensures ((!vin_on && vin_filedes != vin_rsrc) ==> (psf->file.filedes == vin_filedes && psf->file.savedes == vin_save))
+;
+
 static void keep (void) { void *k [] = { (void *) vio_read_c, (void *) vio_write_c, (void *) vio_seek_c, (void *) vio_tell_c } ; (void) k ; }
 
 void h_fread (void)
@@ -238,6 +249,7 @@ void h_fclose (void)
 	REACH (g_close_calls == 1, "descriptor closed") ;
 	CANARY () ;
 }
+void h_use_rsrc (void) { SF_PRIVATE *psf ; int a [4] ; int on ; vin_filedes = a [0] ; vin_rsrc = a [1] ; vin_save = a [2] ; vin_on = a [3] ; psf_use_rsrc (psf, on) ; CANARY () ; }
 void h_fopen (void) { SF_PRIVATE *psf ; int m ; vin_fmode = m ; g_opened = 0 ; int r = psf_fopen (psf) ; REACH (r == 0, "opened") ; REACH (r == SFE_SYSTEM, "system error") ; CANARY () ; }
 void h_set_stdio (void) { SF_PRIVATE *psf ; int m, f ; vin_fmode = m ; vin_filedes = f ; psf_set_stdio (psf) ; CANARY () ; }
 void h_file_valid (void) { SF_PRIVATE *psf ; psf_file_valid (psf) ; CANARY () ; }
